@@ -487,3 +487,35 @@ def model_dict(model):
             except Exception:
                 out[d.name()] = str(model[d])
     return out
+
+
+class NumpyProxy:
+    """numpy for code under symbolic execution: identical to numpy except for the few functions that do not
+    delegate to objects -- isnan (reals have no NaN) and isclose (|a-b| <= atol + rtol*|b|, numpy's definition)"""
+
+    def __getattr__(self, k):
+        return getattr(np, k)
+
+    @staticmethod
+    def _sym(x):
+        return isinstance(x, (SR, SB)) or (isinstance(x, np.ndarray) and x.dtype == object)
+
+    def isnan(self, x):
+        if self._sym(x):
+            return np.zeros(np.shape(x), dtype=bool) if isinstance(x, np.ndarray) else False
+        return np.isnan(x)
+
+    def isclose(self, a, b, rtol=1e-05, atol=1e-08, equal_nan=False):
+        if not (self._sym(a) or self._sym(b)):
+            return np.isclose(a, b, rtol=rtol, atol=atol, equal_nan=equal_nan)
+        if isinstance(a, np.ndarray) or isinstance(b, np.ndarray):
+            aa, bb = np.broadcast_arrays(np.asarray(a, dtype=object), np.asarray(b, dtype=object))
+            out = np.empty(aa.shape, dtype=object)
+            for idx in np.ndindex(aa.shape):
+                out[idx] = self.isclose(aa[idx], bb[idx], rtol, atol)
+            return out
+        d = SR(lift(a) - lift(b))
+        return SB(z3.And(lift(abs(d)) <= atol + rtol * lift(abs(SR(lift(b)))), True))
+
+
+NPX = NumpyProxy()
